@@ -8,6 +8,8 @@ together with the pairs of the unchecked Boolean boxes is a permutation of what 
 flat model emits for the same tree (`formPairs_flatten`).
 -/
 import Proofs.Lemmas.C12FormControls
+import Proofs.Lemmas.C12FormTotal
+import Proofs.Lemmas.C12FormFlat
 namespace Flatland.C12.Proofs
 open Flatland.Markup Flatland.C12 Flatland.C19.Proofs
 
@@ -216,5 +218,115 @@ theorem form_roundtrip (T : Tables) (ctx : Ctx) (hT : TablesOK T) (hL : Live T c
     (hok : formOk T [] t = true) (ps : List Pair)
     (h : browserPost (seenOf T ctx) (renderForm [] t) = .ok ps) : ps = formPairs [] t :=
   form_roundtrip_at T ctx hT hL t [] hok ps h
+
+end Flatland.C12.Proofs
+
+namespace Flatland.C12.Proofs
+open Flatland.Markup Flatland.C12 Flatland.C19.Proofs
+
+/-! ### the form does render (generator with default settings) -/
+
+theorem scalar_renders (T : Tables) (ctx : Ctx) (hT : TablesOK T) (hL : Live T ctx) (hQ : Quiet T ctx)
+    (b : Bind) (hkind : ∀ s ms, b.kind ≠ .array s ms) (u : Str) (w : ScalarWidget) (ex : List Attrs)
+    (hname : b.flatName ≠ []) (hw : widgetOk u w = true) (hex : ex.all extraOk = true) :
+    ∃ ps, browserPost (seenOf T ctx) (scalarControls b w ex) = .ok ps := by
+  cases w with
+  | input ty =>
+    obtain ⟨s, hs⟩ := input_renders T ctx hT hL hQ b ty _ (extraOk_headD hex) hw hname
+    exact postsAll_single_ok ⟨_, posts_single_ok hs⟩
+  | textarea =>
+    obtain ⟨s, hs⟩ := textarea_renders T ctx hT hL hQ b _ (extraOk_headD hex) hname
+    exact postsAll_single_ok ⟨_, posts_single_ok hs⟩
+  | button =>
+    obtain ⟨s, hs⟩ := button_renders T ctx hT hL hQ b _ (extraOk_headD hex) hname
+    exact postsAll_single_ok ⟨_, posts_single_ok hs⟩
+  | radios ty lits =>
+    simp only [widgetOk, Bool.and_eq_true] at hw
+    exact checkGroup_renders (seenOf T ctx) b ty
+      (fun l extra hx => check_renders T ctx hT hL hQ b ty l extra hx hw.1 hname _ (matches_scalar T b hkind l)) lits ex hex
+  | select lits =>
+    exact postsAll_single_ok (select_group_renders (seenOf T ctx) b []
+      (select_renders T ctx hT hL hQ b [] rfl rfl rfl (fun _ _ => rfl) hname)
+      (fun l extra hx => option_renders T ctx hT hL hQ b l extra hx _ (matches_scalar T b hkind l)) lits ex hex)
+
+theorem array_renders (T : Tables) (ctx : Ctx) (hT : TablesOK T) (hL : Live T ctx) (hQ : Quiet T ctx)
+    (b : Bind) (strip : Bool) (bms : List (Option Str)) (hkind : b.kind = .array strip bms) (ms : List Str)
+    (w : ArrayWidget) (ex : List Attrs) (hname : b.flatName ≠ []) (hex : ex.all extraOk = true) :
+    ∃ ps, browserPost (seenOf T ctx) (arrayControls b ms w ex) = .ok ps := by
+  have hm : ∀ l, b.matches T (some (.text l)) = .ok (bms.contains (some (if strip then T.strip l else l))) := by
+    intro l; unfold Bind.matches; rw [hkind]; rfl
+  cases w with
+  | checkboxes =>
+    exact checkGroup_renders (seenOf T ctx) b sCheckbox
+      (fun l extra hx => check_renders T ctx hT hL hQ b sCheckbox l extra hx (by decide) hname _ (hm l)) ms ex hex
+  | selectMultiple =>
+    exact postsAll_single_ok (select_group_renders (seenOf T ctx) b [(sMultiple, .text sMultiple)]
+      (select_renders T ctx hT hL hQ b _ (by decide) (by decide) (by decide) (by decide) hname)
+      (fun l extra hx => option_renders T ctx hT hL hQ b l extra hx _ (hm l)) ms ex hex)
+
+mutual
+theorem form_renders_at (T : Tables) (ctx : Ctx) (hT : TablesOK T) (hL : Live T ctx) (hQ : Quiet T ctx) :
+    ∀ (t : FormTree) (pre : List (Option Str)), formOk T pre t = true →
+      ∃ ps, browserPost (seenOf T ctx) (renderForm pre t) = .ok ps
+  | .text n u w ex, pre, hok => by
+    simp only [formOk, Bool.and_eq_true] at hok
+    simp only [renderForm]
+    exact scalar_renders T ctx hT hL hQ (textBind pre n u) (by intro s ms hk; cases hk) u w ex
+      (ne_nil_of_isEmpty hok.1.1) hok.1.2 hok.2
+  | .bool n tru u ex, pre, hok => by
+    simp only [formOk, Bool.and_eq_true] at hok
+    simp only [renderForm]
+    obtain ⟨s, hs⟩ := boolbox_renders T ctx hT hL hQ (boolBind pre n tru u) tru _ (extraOk_headD hok.2)
+      (ne_nil_of_isEmpty hok.1) rfl
+    exact postsAll_single_ok ⟨_, posts_single_ok hs⟩
+  | .array n strip ms w ex, pre, hok => by
+    simp only [formOk, Bool.and_eq_true] at hok
+    simp only [renderForm]
+    exact array_renders T ctx hT hL hQ (arrayBind pre n strip ms []) strip _ rfl ms w ex (ne_nil_of_isEmpty hok.1.1) hok.2
+  | .joined n u ms ty ex, pre, hok => by
+    simp only [formOk, Bool.and_eq_true] at hok
+    simp only [renderForm]
+    obtain ⟨s, hs⟩ := input_renders T ctx hT hL hQ (arrayBind pre n true ms u) ty _ (extraOk_headD hok.2) hok.1.2
+      (ne_nil_of_isEmpty hok.1.1)
+    exact postsAll_single_ok ⟨_, posts_single_ok hs⟩
+  | .dict n fields, pre, hok => by
+    simp only [formOk] at hok
+    simp only [renderForm]
+    exact fields_render_at T ctx hT hL hQ fields (pre ++ [n]) hok
+  | .list n members, pre, hok => by
+    simp only [formOk] at hok
+    simp only [renderForm]
+    exact slots_render_at T ctx hT hL hQ members (pre ++ [n]) 0 hok
+theorem fields_render_at (T : Tables) (ctx : Ctx) (hT : TablesOK T) (hL : Live T ctx) (hQ : Quiet T ctx) :
+    ∀ (ts : List FormTree) (pre : List (Option Str)), fieldsOk T pre ts = true →
+      ∃ ps, browserPost (seenOf T ctx) (renderFields pre ts) = .ok ps
+  | [], _, _ => ⟨[], rfl⟩
+  | t :: ts, pre, hok => by
+    simp only [fieldsOk, Bool.and_eq_true] at hok
+    simp only [renderFields]
+    exact postsAll_append_ok (form_renders_at T ctx hT hL hQ t pre hok.1) (fields_render_at T ctx hT hL hQ ts pre hok.2)
+theorem slots_render_at (T : Tables) (ctx : Ctx) (hT : TablesOK T) (hL : Live T ctx) (hQ : Quiet T ctx) :
+    ∀ (ts : List FormTree) (pre : List (Option Str)) (i : Nat), slotsOk T pre i ts = true →
+      ∃ ps, browserPost (seenOf T ctx) (renderSlots pre i ts) = .ok ps
+  | [], _, _, _ => ⟨[], rfl⟩
+  | t :: ts, pre, i, hok => by
+    simp only [slotsOk, Bool.and_eq_true] at hok
+    simp only [renderSlots]
+    exact postsAll_append_ok (form_renders_at T ctx hT hL hQ t _ hok.1) (slots_render_at T ctx hT hL hQ ts pre (i + 1) hok.2)
+end
+
+/-- FORM ROUND TRIP, total form: on a generator whose context has name/value generation on and the
+    id / for / tabindex / filter transforms off (the default settings), every form renders and the
+    browser submits exactly the element's own flat pairs a form can carry -/
+theorem form_roundtrip_total (T : Tables) (ctx : Ctx) (hT : TablesOK T) (hL : Live T ctx) (hQ : Quiet T ctx)
+    (t : FormTree) (hok : formOk T [] t = true) :
+    browserPost (seenOf T ctx) (renderForm [] t) = .ok (formPairs [] t) := by
+  obtain ⟨ps, h⟩ := form_renders_at T ctx hT hL hQ t [] hok
+  rw [h, form_roundtrip T ctx hT hL t hok ps h]
+
+/-- … in particular on `Generator()` with the tables of the current source -/
+theorem form_roundtrip_fresh (t : FormTree) (hok : formOk Tables.current [] t = true) :
+    browserPost (seenOf Tables.current freshGen.ctx) (renderForm [] t) = .ok (formPairs [] t) :=
+  form_roundtrip_total _ _ tablesOK_current fresh_live fresh_quiet t hok
 
 end Flatland.C12.Proofs
